@@ -790,7 +790,9 @@ func (k Keeper) IterateActiveRequests(
 	}
 }
 
-// FilterServiceProviders gets the providers which satisfy the specified requirement
+// FilterServiceProviders gets the providers which satisfy the specified requirement.
+// A provider whose price cannot be exchanged into the base denom is left out; the
+// first such failure is returned along with the providers that do qualify.
 func (k Keeper) FilterServiceProviders(
 	ctx sdk.Context,
 	serviceName string,
@@ -803,6 +805,8 @@ func (k Keeper) FilterServiceProviders(
 ) {
 	var newProviders []sdk.AccAddress
 	var totalPrices sdk.Coins
+	var firstErrDenom string
+	var firstErr error
 
 	for _, provider := range providers {
 		binding, found := k.GetServiceBinding(ctx, serviceName, provider)
@@ -811,7 +815,11 @@ func (k Keeper) FilterServiceProviders(
 			if binding.QoS <= uint64(timeout) {
 				price, rawDenom, err := k.GetExchangedPrice(ctx, consumer, binding)
 				if err != nil {
-					return nil, nil, rawDenom, err
+					// a provider whose price cannot be exchanged does not qualify; the others still do
+					if firstErr == nil {
+						firstErrDenom, firstErr = rawDenom, err
+					}
+					continue
 				}
 
 				if price.IsAllLTE(serviceFeeCap) {
@@ -822,7 +830,7 @@ func (k Keeper) FilterServiceProviders(
 		}
 	}
 
-	return newProviders, totalPrices, "", nil
+	return newProviders, totalPrices, firstErrDenom, firstErr
 }
 
 // DeductServiceFees deducts the given service fees from the specified consumer
